@@ -5,13 +5,14 @@ pub mod c12;
 pub mod c13;
 pub mod c14;
 pub mod c15;
+pub mod c18;
 pub mod c19;
 pub mod c20;
 pub mod refprops;
 
 use crate::framework::Property;
 
-pub static ALL: &[&dyn Property] = &[&c01::C01, &c03::C03, &refprops::C06, &refprops::C09, &refprops::C10, &refprops::C11, &refprops::C17, &c04::C04, &c12::C12, &c13::C13, &c14::C14, &c15::C15, &c19::C19, &c20::C20];
+pub static ALL: &[&dyn Property] = &[&c01::C01, &c03::C03, &refprops::C06, &refprops::C09, &refprops::C10, &refprops::C11, &refprops::C17, &c04::C04, &c12::C12, &c13::C13, &c14::C14, &c15::C15, &c18::C18, &c19::C19, &c20::C20];
 
 pub fn lookup(id: &str) -> Option<&'static dyn Property> {
     ALL.iter().copied().find(|p| p.id() == id)
